@@ -124,6 +124,8 @@ def main():
              "kind_free_text": "the same executor built against rug/GMP (vendored gmp-mpfr-sys build script, system GMP)"},
             {"name": "wsm", "path": "/verif/harness/inproc", "serves_properties": ["C04", "C07", "C08", "C09", "C10", "C11", "C12", "C13", "C14", "C16", "C17", "C18"],
              "kind_free_text": "E2 in-process monitors with reference models, fault-injecting readers/writers, coverage matrices"},
+            {"name": "wsf", "path": "/verif/harness-feat", "serves_properties": ["C02", "C05", "C08", "C09"],
+             "kind_free_text": "the crate built with reduced feature sets (srp-default-math only, + tbc-header, + wrath-header), one target directory each; smoke-level versions of the same oracles"},
             {"name": "pymon", "path": "/verif/pymon", "serves_properties": sorted(P),
              "kind_free_text": "Python drivers, model, verdict/evidence plumbing, Miri/valgrind runners"},
         ],
